@@ -83,6 +83,7 @@ fn main() {
         "C07" => check::hon::run_c07(&ctx),
         "C08" => check::c08::run(&ctx),
         "C09" => check::c09::run(&ctx),
+        "C06" => check::c06::run(&ctx),
         "C11" => check::c11::run(&ctx),
         "C12" => check::hon::run_c12(&ctx),
         "C20" => check::c20::run(&ctx),
